@@ -198,6 +198,11 @@ func (fx *FuncExec) allocMonotone(st *State, pre map[string]string) {
 			continue
 		}
 		fx.ghFacts = append(fx.ghFacts, ghFact{c, fmt.Sprintf("(forall ((r %s)) (! (=> (select %s r) (select %s r)) :pattern ((select %s r))))", srt, o, st.vars[c], st.vars[c]), st.vars[c], true})
+		// shortcut from the entry state: what existed at entry exists now (one step
+		// instead of a chain as long as the number of calls made so far)
+		if h0 := fx.h0(c); h0 != o {
+			fx.ghFacts = append(fx.ghFacts, ghFact{c, fmt.Sprintf("(forall ((r %s)) (! (=> (select %s r) (select %s r)) :pattern ((select %s r))))", srt, h0, st.vars[c], h0), st.vars[c], false})
+		}
 	}
 }
 
